@@ -65,3 +65,38 @@ pub fn fnv(bytes: &[u8]) -> u64 {
     }
     h
 }
+
+/// Run a command with a wall-clock limit. `None` = it had to be killed.
+pub fn output_with_timeout(cmd: &mut std::process::Command, secs: u64) -> std::io::Result<Option<std::process::Output>> {
+    use std::io::Read;
+    let mut child = cmd.stdout(std::process::Stdio::piped()).stderr(std::process::Stdio::piped()).spawn()?;
+    let mut so = child.stdout.take().unwrap();
+    let mut se = child.stderr.take().unwrap();
+    let t1 = std::thread::spawn(move || {
+        let mut v = vec![];
+        let _ = so.read_to_end(&mut v);
+        v
+    });
+    let t2 = std::thread::spawn(move || {
+        let mut v = vec![];
+        let _ = se.read_to_end(&mut v);
+        v
+    });
+    let t0 = std::time::Instant::now();
+    let status = loop {
+        match child.try_wait()? {
+            Some(s) => break Some(s),
+            None => {
+                if t0.elapsed().as_secs() >= secs {
+                    let _ = child.kill();
+                    let _ = child.wait();
+                    break None;
+                }
+                std::thread::sleep(std::time::Duration::from_millis(5));
+            }
+        }
+    };
+    let stdout = t1.join().unwrap_or_default();
+    let stderr = t2.join().unwrap_or_default();
+    Ok(status.map(|status| std::process::Output { status, stdout, stderr }))
+}
